@@ -25,12 +25,13 @@ type c18Param struct {
 	Scan    bt.Op     `json:"scan"`
 	Writers [][]bt.Op `json:"writers"`
 	Big     []string  `json:"big"`            // rows holding >1024 cells (each forces a Send, i.e. a lock release, after it)
+	Pre     []bt.Op   `json:"pre,omitempty"`  // requests applied (sequentially) after the fixture is in place
 	Fill    int       `json:"fill,omitempty"` // additional one-cell rows f000..f<Fill-1> (scans longer than any batching constant)
 }
 
 // c18Keys is the key universe of a scenario: the fixture rows plus every row a writer may create.
 func c18Keys(p c18Param) []string {
-	ks := []string{"0", "a", "b", "bb", "c", "d", "e", "z"}
+	ks := []string{"0", "a", "b", "bb", "c", "cc", "d", "e", "z"}
 	for i := 0; i < p.Fill; i++ {
 		ks = append(ks, fmt.Sprintf("f%03d", i))
 	}
@@ -56,6 +57,9 @@ func (p c18Param) name() string {
 	}
 	if p.Fill > 0 {
 		sc += fmt.Sprintf("+fill%d", p.Fill)
+	}
+	if len(p.Pre) > 0 {
+		sc += fmt.Sprintf("+pre%d", len(p.Pre))
 	}
 	return fmt.Sprintf("%s:scan[%s;big=%s]|%s", p.Engine, sc, strings.Join(p.Big, ""), strings.Join(ws, "|"))
 }
@@ -104,6 +108,12 @@ func c18Build(c *fw.Ctx, p c18Param) *schedInst {
 	// is built once per process THROUGH the API on a scratch instance and read back raw).
 	for _, r := range fx.rows {
 		raw.ReplaceOrInsert(proto.Clone(r).(*btpb.Row))
+	}
+	for i := range p.Pre {
+		model.Apply(&p.Pre[i], nil, 0)
+		if r := d.Apply(&p.Pre[i]); r.Code != "OK" {
+			panic("c18 pre-request failed: " + p.Pre[i].String() + ": " + r.Code + " " + r.Msg + r.Panic)
+		}
 	}
 	type ev struct {
 		op        bt.Op
@@ -164,24 +174,49 @@ func c18Build(c *fw.Ctx, p c18Param) *schedInst {
 			}
 		}
 		// admissible versions per row
-		before := model.Clone() // + writes that completed before the scan was called
+		// Every order of ALL writes that respects real time (a write that returned before another was called comes
+		// first) is a possible history; along each, a state is a candidate for what the scan saw of a row if it
+		// contains every write that returned before the scan was called and no write that was called after the scan
+		// returned. (Two writes that overlap each other may take effect in either order, also when both returned
+		// before the scan began.) The state after a complete order is a candidate for the final table.
+		var cands, finals []*bt.Model
 		var optional []ev
-		for _, w := range writes { // completion order
-			if w.ret < scan.call {
-				before.Apply(&w.op, nil, 0)
-			} else if w.call < scan.ret {
+		for _, w := range writes {
+			if !(w.ret < scan.call) && w.call < scan.ret {
 				optional = append(optional, w)
 			}
 		}
-		// every order of every subset of the optional writes that respects their real-time order
-		var cands []*bt.Model
-		var rec func(m *bt.Model, rest []ev)
-		rec = func(m *bt.Model, rest []ev) {
-			cands = append(cands, m)
-			for i, w := range rest {
+		before := model.Clone() // one representative "before" state (completion order), used for rows nobody wrote during the scan
+		for _, w := range writes {
+			if w.ret < scan.call {
+				before.Apply(&w.op, nil, 0)
+			}
+		}
+		var rec func(m *bt.Model, done []bool, ndone int)
+		rec = func(m *bt.Model, done []bool, ndone int) {
+			okCand := true
+			for i, w := range writes {
+				if !done[i] && w.ret < scan.call {
+					okCand = false // a write that preceded the scan is still missing
+				}
+				if done[i] && w.call > scan.ret {
+					okCand = false // contains a write that began after the scan had ended
+				}
+			}
+			if okCand {
+				cands = append(cands, m)
+			}
+			if ndone == len(writes) {
+				finals = append(finals, m)
+				return
+			}
+			for i, w := range writes {
+				if done[i] {
+					continue
+				}
 				okOrder := true
-				for j, o := range rest {
-					if j != i && o.ret < w.call { // o really happened before w: w cannot be applied without o
+				for j, o := range writes {
+					if j != i && !done[j] && o.ret < w.call { // o really happened before w
 						okOrder = false
 					}
 				}
@@ -190,11 +225,12 @@ func c18Build(c *fw.Ctx, p c18Param) *schedInst {
 				}
 				n := m.Clone()
 				n.Apply(&w.op, nil, 0)
-				nr := append(append([]ev(nil), rest[:i]...), rest[i+1:]...)
-				rec(n, nr)
+				nd := append([]bool(nil), done...)
+				nd[i] = true
+				rec(n, nd, ndone+1)
 			}
 		}
-		rec(before, optional)
+		rec(model.Clone(), make([]bool, len(writes)), 0)
 		rowStr := func(m *bt.Model, key string) string {
 			t := m.Tables[tblT]
 			if t == nil || len(t.Rows[key]) == 0 {
@@ -273,6 +309,30 @@ func c18Build(c *fw.Ctx, p c18Param) *schedInst {
 			if !found {
 				return "rowset", fmt.Sprintf("scan returned unknown row %q", k), "rowset"
 			}
+		}
+		// afterwards: every acknowledged write is still there (the scan itself must not have changed anything)
+		fin := d.Apply(&bt.Op{Kind: "ReadRows", Table: tblT})
+		if fin.Panic != "" || fin.Code != "OK" {
+			return "after", "a full read after the scan fails: " + fin.Code + " " + fin.Panic, "after"
+		}
+		lateFinals := finals
+		gotAll := bt.RowsString(fin.Rows)
+		okFinal := false
+		for _, m := range lateFinals {
+			var rows []bt.RowOut
+			t := m.Tables[tblT]
+			for _, k := range universe {
+				if t != nil && len(t.Rows[k]) > 0 {
+					rows = append(rows, bt.ToRowOut(k, bt.Cells(t.Rows[k], nil)))
+				}
+			}
+			if bt.RowsString(rows) == gotAll {
+				okFinal = true
+				break
+			}
+		}
+		if !okFinal {
+			return "final", fmt.Sprintf("after the scan and all writes have returned, the table is in none of the %d states the acknowledged writes can produce: %.300s", len(lateFinals), gotAll), "final"
 		}
 		var ks []string
 		for _, row := range r.Rows {
@@ -415,6 +475,18 @@ func runC18(c *fw.Ctx) {
 			c18Param{Engine: eng, Scan: all, Writers: [][]bt.Op{{delRun(90, 110)}}, Big: []string{"a"}, Fill: 230},
 			c18Param{Engine: eng, Scan: all, Writers: [][]bt.Op{{delRun(190, 205)}, {set("f099", "w")}}, Big: []string{"a"}, Fill: 230},
 			c18Param{Engine: eng, Scan: bt.Op{Kind: "ReadRows", Table: tblT, HasRowSet: true, Ranges: []bt.Range{{SK: 1, S: []byte("a"), EK: 2, E: []byte("f150")}, {SK: 1, S: []byte("f160")}}}, Writers: [][]bt.Op{{delRun(95, 105)}, {bt.Op{Kind: "DropRowRange", Table: tblT, Prefix: []byte("f2")}}}, Big: []string{"a"}, Fill: 230},
+		)
+		// rows that are stored without any cell (their only family was dropped; the family exists again): a write to
+		// such a row while the scan has given up the lock
+		ghost := []bt.Op{
+			{Kind: "MutateRow", Table: tblT, Key: []byte("bb"), Muts: []bt.Mut{mset("g", "only", 1000, "x")}},
+			{Kind: "MutateRow", Table: tblT, Key: []byte("cc"), Muts: []bt.Mut{mset("g", "only", 1000, "x")}},
+			{Kind: "ModifyFamilies", Table: tblT, Mods: []bt.Mod{{ID: "g", Op: "drop"}}},
+			{Kind: "ModifyFamilies", Table: tblT, Mods: []bt.Mod{{ID: "g", Op: "create"}}},
+		}
+		scen = append(scen,
+			c18Param{Engine: eng, Scan: all, Pre: ghost, Writers: [][]bt.Op{{set("bb", "w")}}, Big: []string{"a", "c"}},
+			c18Param{Engine: eng, Scan: all, Pre: ghost, Writers: [][]bt.Op{{set("cc", "w")}, {rmw("bb")}}, Big: []string{"a", "c"}},
 		)
 		// two writers, and a writer with two requests on the same row
 		scen = append(scen,
